@@ -1,5 +1,20 @@
 import RecipeGrid.Lemmas.FoldSpec
-/-! C01.4 — the inlining pass of `compile` refines the documented by-name folding. -/
+/-! C01.4 — the inlining pass of `compile` refines the documented *by-name* folding.
+
+    Layout (as in `Props/C01.lean`, the specification comes first, then the proofs that need its definitions, then the
+    property theorems and kernel-checked examples):
+
+    * **specification** — `FTree`/`FStmt` (by-name trees that can hold an inlined titled sub recipe; statements with
+      their id, block, `:=` flag and a `live` flag), `lift` (the elaborated program of C01 with the `:=` flags of the
+      AST), `liveRefs`/`refsTo` (references by name of the remaining program), `Spec.isWhole`, `Spec.canFold` (the four
+      documented conditions), `Spec.foldStmt`, `Spec.foldAll` (every statement in definition order), `embedF` (the
+      compiler's by-copy representation of the remaining statements) and `specCompile`.  No copies, no table.
+    * **proofs** — `embed_inline` (the substitution of the pass IS inlining by name), `liveRefs_fold` (conservation of
+      references), the abstract invariant `WFP`, the abstraction relation `Abs` between the concrete loop state
+      (`blocks`, `outs`) and the abstract program, `step_single` (one `foldStep` = one `Spec.foldStmt`), `loop_sim`.
+    * **theorems** — `compile_refines_spec`, `compile_eq_specCompile`, `folded_iff`, `multi_output_not_folded`,
+      `cross_block_not_folded`, `foldStmt_folded`; examples.
+    Model-only helper lemmas are in `Lemmas/FoldSpec.lean`. -/
 namespace RG.C01
 
 -- ================================================================ the by-name specification of folding
@@ -150,7 +165,8 @@ def rootsOfF (P : List FStmt) : List Tree := P.foldl (fun roots s => roots ++ [e
 def embedF (nblocks : Nat) (P : List FStmt) : List (List Tree) :=
   (List.range nblocks).map fun b => ((P.zip (rootsOfF P)).filter (fun p => p.1.live && p.1.block == b)).map (·.2)
 
-/-- the statement C01.4 -/
+/-- the by-name meaning of a list of source texts: the first block that does not parse, else the error of the by-name
+    elaboration (C01.3), else the by-name program after the documented folding, with copies embedded -/
 def specCompile (srcs : List Str) : CompileResult :=
   match parseAll 0 srcs with
   | .error e => e
@@ -1143,6 +1159,28 @@ theorem singleRefOk_true {b : Nat} {iq : Option Quantity} {L : List (Amount × N
   · simp only [singleRefOk, Bool.and_eq_true, beq_iff_eq] at h
     exact ⟨a, by rw [h.1]⟩
   · cases h
+
+/-- **`can_be_inlined` is the documented condition**: for the table entry of a single-output statement `k`, the
+    decision of the loop on the concrete entry (`o.refs` has one element, from the defining block, whose amount is the
+    whole of `o.sub`) is `Spec.canFold` on the by-name program (the number of references by name is `o.refs.length`,
+    same block, whole amount w.r.t. the inferred quantity of the already folded tree) -/
+theorem canBeInlined_eq_canFold {asts : List (List AStmt)} {ns : List NStmt} {k : Nat}
+    {P : List FStmt} {blocks : List Block} {outs : List NamedOutput} (hW : WFP asts ns k P)
+    (hA : Abs asts ns k P blocks outs) {s : NStmt} (hk : ns[k]? = some s) {n0 : SVS} (hn : s.names = [n0])
+    {i : Nat} {key : SVS} (hi : (definedNames ns)[i]? = some (key, k, 0)) :
+    ∃ o st, outs[i]? = some o ∧ P[k]? = some st ∧ o.canBeInlined = Spec.canFold P st ∧
+      o.refs.length = (refsTo P k 0).length := by
+  obtain ⟨st, hst, hsid, hblk, hnames, hsh, hnamed⟩ := hW.get hk
+  obtain ⟨o, u, ho, hu, hroot, hidx, hdef, hunw, hperm⟩ := hA.entry i key k 0 hi (Nat.le_refl _)
+  rw [hst] at hu; cases hu
+  have hstn : st.names = [n0] := by rw [hnames, hn]
+  have hR : (rootsOfF P)[k]? = some (.sub (embedFTree (rootsOfF P) st.tree) [n0] st.showNames) := by
+    rw [hW.root hst, embedFStmt_named _ _ (by rw [hstn]; simp), hstn]
+  have hosub : o.sub = .sub (embedFTree (rootsOfF P) st.tree) [n0] st.showNames := by
+    rw [hroot] at hR; exact Option.some.inj hR
+  refine ⟨o, st, ho, hst, ?_, by simpa using hperm.length_eq⟩
+  rw [canBeInlined_eq o _ hperm, canFold_eq, hosub, hdef, hsid]
+  simp only [Tree.numOutputs, inferQuantity, inferQuantity_embed, hstn]
 
 /-- **one-step simulation**: the iteration of the loop for the table entry of the single-output statement `k` is
     `Spec.foldStmt · k` on the abstract program -/
